@@ -52,7 +52,7 @@ check('C05',
       'with Storage.setup_optim_problem (c, l, u, rows, mapping; incl. no_simult, max_store_duration, coarse frequency, windows, '
       'price), Storage.fill_level with the model level at box points; on every solved portfolio the physical level, rates, end level, '
       'reported fill level / charge / discharge, exclusivity and holding duration are recomputed from the returned x.',
-      TB + 'Time blocks are not modelled as rows (implementation oracle only); max_store_duration with non-zero start/end level or '
+      TB + 'Time blocks: C05_time_blocks (start = end level, no inflow) with the level rows compared for block sizes of fixed duration; anchored block sizes and blocks with MIP options: implementation oracle only; max_store_duration with non-zero start/end level or '
       'inflow and block_size with inflow or start != end level are known findings of the unchanged tree.',
       'Coq proof (cumulative-sum rows => level bounds) + differential correspondence + implementation oracle', 'DESIGN.md 4 C05')
 check('C19',
